@@ -422,13 +422,16 @@ func (c *Cluster) projTable(o string) RTable {
 		}
 		sort.Strings(es)
 		for _, e := range es {
-			r.Eps = append(r.Eps, EpCnt{E: e, C: x.Endpoints[e]})
+			r.Eps = append(r.Eps, EpCnt{E: "endpoint:" + e, C: x.Endpoints[e]})
 		}
 		return r
 	}
 	nodes := n.Routing.Nodes()
 	sort.Slice(nodes, func(i, j int) bool { return nodes[i].ID < nodes[j].ID })
 	for _, x := range nodes {
+		if x.ID == o {
+			continue // the table of the specification holds the remote nodes only
+		}
 		t.Nodes = append(t.Nodes, conv(x))
 	}
 	pend := n.Syncer.Pending()
@@ -442,7 +445,7 @@ func (c *Cluster) projTable(o string) RTable {
 	}
 	for _, e := range c.Opt.Endpoints {
 		r, ok := n.Routing.LookupEndpoint(e)
-		l := EpLookup{E: e}
+		l := EpLookup{E: "endpoint:" + e}
 		if ok {
 			l.N = r.ID
 		}
